@@ -567,13 +567,20 @@ unsigned cmb_random_geometric(const double p)
 {
     cmb_assert((p > 0.0) && (p <= 1.0));
 
+    if (p >= 1.0) {
+        /* Every trial succeeds. Also avoids log(0), a division-by-zero
+         * exception where that is unmasked (inside processes and trials) */
+        return 1u;
+    }
+
     static CMB_THREAD_LOCAL double prev = 0.0;
     static CMB_THREAD_LOCAL double denom = 0.0;
     if (p != prev) {
         denom = -log(1.0 - p);
     }
 
-    unsigned x = (unsigned)ceil(cmb_random_std_exponential() / denom);
+    /* floor + 1 rather than ceil: never 0, not even for a zero exponential sample */
+    unsigned x = 1u + (unsigned)floor(cmb_random_std_exponential() / denom);
 
     cmb_assert_debug(x >= 1u);
     return x;
